@@ -1008,7 +1008,7 @@ pub fn run(ctx: &mut Ctx) {
         "oracle: never two live writers; LockBusy iff a writer is alive; first writer undisturbed; lock file untouched during rollback; new writer after kill+drop; second process sees the lock (MmapDirectory)".into(),
     ];
     check_constants(ctx);
-    let lifecycles = ctx.budget(500, 10_000);
+    let lifecycles = ctx.budget(500, 4_000); // thorough sized to stay under ~15 min on the shared machine
     let backends = [Backend::Ram, Backend::Mmap, Backend::V];
     for n in 0..lifecycles {
         for &b in &backends {
@@ -1028,7 +1028,7 @@ pub fn run(ctx: &mut Ctx) {
         }
     }
     // racing creations
-    let rounds = ctx.budget(300, 3_000);
+    let rounds = ctx.budget(300, 1_500);
     for r in 0..rounds {
         let b = backends[(r % 3) as usize];
         let n = 2 + ctx.rng.usize_below(7);
@@ -1038,7 +1038,7 @@ pub fn run(ctx: &mut Ctx) {
         ctx.report.count_n(&format!("time-ms:races:{}", b.name()), t0.elapsed().as_millis() as u64);
     }
     // second process
-    let procs = ctx.budget(6, 60);
+    let procs = ctx.budget(6, 30);
     for v in 0..procs {
         two_process_round(ctx, v);
     }
